@@ -362,7 +362,7 @@ OUTSIDE = ['N>4 objects', 'more than 2 parallel handles per ordered pair', 'allo
 
 def items_C01(tier, seed, P):
     o = {'panics_ok': True}
-    return (graph_items('C01', tier, seed, {'C01'}, opts=o, n3_edges_q=4, n3_edges_t=6) + mult_items('C01', tier, seed, {'C01'}, opts=o) + history_items('C01', tier, seed, {'C01'}, opts=o)
+    return (graph_items('C01', tier, seed, {'C01'}, opts=o, n3_edges_q=4, n3_edges_t=6, noop=True) + mult_items('C01', tier, seed, {'C01'}, opts=o) + history_items('C01', tier, seed, {'C01'}, opts=o)
             + api_items('C01', tier, seed, {'C01'}, opts=o))
 
 
@@ -373,14 +373,28 @@ def items_C02(tier, seed, P):
     o = {'panics_ok': True}
     return (graph_items('C02', tier, seed, {'C02'}, opts=o, wextras=True, noop=True) + mult_items('C02', tier, seed, {'C02'}, opts=o, wextras=True)
             + history_items('C02', tier, seed, {'C02'}, opts=o) + weak_graph_items('C02', tier, seed, {'C02'}, opts=o, dtor_upgrades=False)
-            + weak_graph_items('C02', tier, seed, {'C02'}, opts=o, dtor_upgrades=False, one_weak=True) + api_items('C02', tier, seed, {'C02'}, opts=o))
+            + weak_graph_items('C02', tier, seed, {'C02'}, opts=o, dtor_upgrades=False, one_weak=True) + api_items('C02', tier, seed, {'C02'}, opts=o)
+            + _c02_unwrap_after_elided_unadopt(tier, seed, P))
+
+
+def _c02_unwrap_after_elided_unadopt(tier, seed, P):
+    """C12's histories in which a peer gave its handles away without unadopt before the object left through try_unwrap / make_mut
+    (documented as safe): here under the memory monitors alone"""
+    out = []
+    for it in items_C12(tier, seed, P):
+        if 'stale' in it.get('tags', []):
+            c = dict(it)
+            c.update(prop='C02', oracles={'C02'}, accept_props=['C02'], relabel=False, ub_prop='C02', name='unwrap-after-elided-unadopt: ' + it['name'],
+                     opts={'panics_ok': True, 'stale': True})
+            out.append(c)
+    return out
 
 
 PROPS['C02'] = dict(items=items_C02, bounds=BOUNDS_GRAPH, outside=OUTSIDE, vacuity=vac_paths('dtor', 'multi_destroy_ops'), replay_oracles=['C02'])
 
 
 def items_C03(tier, seed, P):
-    its = graph_items('C03', tier, seed, {'C03'}, recorded_only=False, n3_edges_q=4, n3_edges_t=6) + mult_items('C03', tier, seed, {'C03'}) + history_items('C03', tier, seed, {'C03'})
+    its = graph_items('C03', tier, seed, {'C03'}, recorded_only=False, n3_edges_q=4, n3_edges_t=6, noop=True) + mult_items('C03', tier, seed, {'C03'}) + history_items('C03', tier, seed, {'C03'})
     # make_mut through an outside handle of a group member (value cloned into a fresh allocation, the old handle released
     # inside make_mut): the recorded graph of the old object must still lead to its collection
     R = lambda i, j: (i, j, True, False)
@@ -799,8 +813,11 @@ def c10_shapes(tier):
     R = lambda i, j: (i, j, True, False)
     sh = [(1, [], 'plain1'), (2, [(0, 1, False, False)], 'chain-unrecorded'), (2, [R(0, 1)], 'owner-target'),
           (1, [(0, 0, True, False)], 'selfclone1'), (2, [R(0, 1), R(1, 0)], 'ring2'), (3, F.named_shapes(3)['ring2+tail'], 'ring2+tail'),
-          (3, F.named_shapes(3)['owner-of-ring2'], 'owner-of-ring2')]
+          (3, F.named_shapes(3)['owner-of-ring2'], 'owner-of-ring2'),
+          # ring members that also carry upstream's no-effect same-handle self adoption (a second, Loopback key in the trace result)
+          (2, [R(0, 1), R(1, 0), (0, 0, True, 'noop')], 'ring2+noop-self@0'), (2, [R(0, 1), (1, 1, True, 'noop')], 'owner-target+noop-self@1')]
     if tier != 'quick':
+        sh.append((3, F.named_shapes(3)['ring3'] + [(1, 1, True, 'noop')], 'ring3+noop-self@1'))
         for nm, e in F.named_shapes(3).items():
             if nm not in ('ring2+tail', 'owner-of-ring2'):
                 sh.append((3, e, nm))
@@ -845,7 +862,8 @@ def items_C10(tier, seed, P):
                         o2.append({'op': 'drop_if', 'h': 'kp'})
                     items.append(dict(prop='C10', name='%s dtor%d:%s drops=%s' % (nm, actor, an, ''.join('%s%d' % s for s in seq)), script={'ops': o2},
                                       sym=True, oracles={'C01', 'C02', 'C03', 'C05', 'C06', 'C10'}, accept_props=['C10', 'C01', 'C02', 'C03', 'C05', 'C06'],
-                                      relabel=True, ub_prop='C10', opts={}, layouts=std_layouts(n, tier, seed)[:2 if tier == 'quick' else 4]))
+                                      relabel=True, ub_prop='C10', opts={}, layouts=std_layouts(n, tier, seed)[:2 if tier == 'quick' else 4]
+                                      + ([('rank', tuple(range(n)), (2, 0, 1), 'kind', False), ('rank', tuple(range(n)), (1, 2, 0), 'obj', False)] if 'noop' in nm else [])))
     return items
 
 
@@ -853,7 +871,7 @@ def vac_dtor(results, extra):
     return vac_paths('dtor', 'multi_destroy_ops', 'upgrade:some', 'upgrade:none', 'strong_count')(results, extra)
 
 
-PROPS['C10'] = dict(items=items_C10, bounds={'quick': {'shapes': 'plain object, unrecorded chain, owner/target, self-clone, ring2, ring2+tail; plus bystander B (symbolic extras) and a second group {P,Q}', 'positions': 'each member destructor of each shape', 'actions': 'one of: clone, clone+drop, drop (possibly last), downgrade+upgrade, adopt, unadopt, drop of the last handle of group {P,Q} (nested collection), counts/deref; every acting destructor also upgrades a Weak to a dying peer', 'layouts': 2},
+PROPS['C10'] = dict(items=items_C10, bounds={'quick': {'shapes': 'plain object, unrecorded chain, owner/target, self-clone, ring2, ring2+tail, owner of a ring, ring2 / owner-target with a no-effect same-handle self adoption (Loopback-first table orders included); plus bystander B (symbolic extras) and a second group {P,Q}', 'positions': 'each member destructor of each shape', 'actions': 'one of: clone, clone+drop, drop (possibly last), downgrade+upgrade, adopt, unadopt, drop of the last handle of group {P,Q} (nested collection), counts/deref; every acting destructor also upgrades a Weak to a dying peer', 'layouts': 2},
                                              'thorough': {'shapes': 'plus named N=3 shapes, two rings', 'layouts': 4}},
                     outside=OUTSIDE + ['two injected actions per path', 'actions on objects that are themselves being destroyed (C16)'], vacuity=vac_dtor,
                     replay_oracles=['C01', 'C02', 'C03', 'C05', 'C06', 'C10'])
